@@ -120,6 +120,9 @@ static void *vf_split_alloc(void *old, size_t n)
 #endif
 #define VF_SZ(k) else if (n == (k)) { p = old ? realloc(old, (k)) : malloc(k); done = 1; }
 #define VF_SZ8(b) VF_SZ((b)) VF_SZ((b) + 1) VF_SZ((b) + 2) VF_SZ((b) + 3) VF_SZ((b) + 4) VF_SZ((b) + 5) VF_SZ((b) + 6) VF_SZ((b) + 7)
+#ifdef VF_SZ_LIST
+    VF_SZ_LIST(VF_SZ)          /* harness-specific list of request sizes (fewer branches than the full range) */
+#else
     VF_SZ8(0)
 #if VF_MAXSZ >= 8
     VF_SZ8(8)
@@ -141,6 +144,7 @@ static void *vf_split_alloc(void *old, size_t n)
 #endif
 #if VF_MAXSZ >= 96
     VF_SZ8(96) VF_SZ8(104) VF_SZ8(112) VF_SZ8(120)
+#endif
 #endif
     VF_BOUND(done, "allocation size outside the size-split range");
     __CPROVER_assume(done);
